@@ -264,9 +264,14 @@ class SpecBuiltins:
             return SV(TBool, z3.And(z3.Not(v.ty.is_none(v.term)), it.cls_of(v.ty.val(v.term)) == it.cls_id(c.ci.qname)))
         if isinstance(v.ty, TUnion):
             for i, a in enumerate(v.ty.alts):
+                if isinstance(a, TRec) and a.cls == c.ci.qname:
+                    return SV(TBool, v.ty.is_alt(i, v.term))
+            for i, a in enumerate(v.ty.alts):
                 if isinstance(a, TObj):
                     return SV(TBool, z3.And(v.ty.is_alt(i, v.term), it.cls_of(v.ty.proj(i, v.term)) == it.cls_id(c.ci.qname)))
             return SV(TBool, z3.BoolVal(False))
+        if isinstance(v.ty, TRec):
+            return SV(TBool, z3.BoolVal(v.ty.cls == c.ci.qname))
         if not isinstance(v.ty, TObj):
             return SV(TBool, z3.BoolVal(False))
         return SV(TBool, it.cls_of(v.term) == it.cls_id(c.ci.qname))
@@ -280,13 +285,30 @@ class SpecBuiltins:
             v = SV(v.ty.inner, v.ty.val(v.term))
         if isinstance(v.ty, TUnion):
             for i, a in enumerate(v.ty.alts):
+                if isinstance(a, TRec) and a.cls == c.ci.qname:
+                    return SV(a, v.ty.proj(i, v.term))
+            for i, a in enumerate(v.ty.alts):
                 if isinstance(a, TObj):
                     v = SV(a, v.ty.proj(i, v.term))
                     break
+        if isinstance(v.ty, TRec):
+            if v.ty.cls == c.ci.qname:
+                return v
+            # a record of another class: the cast is only meaningful under a (false) cls_is guard
+            t = self.cdb.types.class_ty(c.ci.qname)
+            return SV(t, z3.Const("cast_dummy_" + c.ci.name, t.sort()))
+        if isinstance(v.ty, TUnion):
+            t = self.cdb.types.class_ty(c.ci.qname)
+            if isinstance(t, TRec):
+                return SV(t, z3.Const("cast_dummy_" + c.ci.name, t.sort()))
         return SV(TObj(c.ci.qname, exact=True), v.term)
 
     def s_same_obj(self, it, node, fr):
         (a, b), fr = self._args(it, node, fr)
+        if isinstance(a.ty, TOpt) and not isinstance(b.ty, TOpt):
+            return SV(TBool, z3.And(z3.Not(a.ty.is_none(a.term)), a.ty.val(a.term) == b.term))
+        if isinstance(b.ty, TOpt) and not isinstance(a.ty, TOpt):
+            return SV(TBool, z3.And(z3.Not(b.ty.is_none(b.term)), b.ty.val(b.term) == a.term))
         return SV(TBool, a.term == b.term)
 
     def s_fresh_in(self, it, node, fr):
